@@ -87,8 +87,8 @@ impl Property for C11 {
     }
     fn budget(&self, tier: Tier) -> Budget {
         match tier {
-            Tier::Quick => Budget { cases: 20_000, min_len: 8, max_len: 160 },
-            Tier::Thorough => Budget { cases: 1_000_000, min_len: 8, max_len: 200 },
+            Tier::Quick => Budget { cases: 40000, min_len: 8, max_len: 160 },
+            Tier::Thorough => Budget { cases: 2000000, min_len: 8, max_len: 200 },
         }
     }
 
